@@ -250,6 +250,9 @@ def obligations(tier):
     # general-EOS driver: mirrored problem on the same path (tables by the ODE contract, small tables)
     from . import geos
     obs += geos.obligations('C09', tier, patterns=('RCR',) if tier == 'quick' else ('RCR', 'RCS', 'SCR', 'SCS'), mirror=True)
+    # ... and the Galilean boost of the general-EOS driver in the same two-run form (both velocities + w, points + w t)
+    obs += [o for o in geos.obligations('C09', tier, patterns=('RCR', 'SCS') if tier == 'quick' else ('RCR', 'RCS', 'SCR', 'SCS'), boost=True)
+            if 'ode_contract' not in o.id and (tier != 'quick' or '.RCR.00.' in o.id or '.SCS.11.' in o.id)]
     # ... and the explicit form of what the driver assembles on each side (same obligations as C04): every fan node and
     # wave position carries the state and the characteristic speed of ITS OWN side's table and gamma.  An output of that
     # form is mirror-covariant by inspection; a side treated with the other side's parameters is refuted here directly,
